@@ -137,6 +137,61 @@ def judge_array(acc, fmt, rounding, overflow, ds, part, check_flags=True):
     acc.sample(dict(case, vals=case['vals'][:3]))
 
 
+FXP_SRC_ROUTES = ('ctor', 'call', 'set_val', 'equal', 'setitem', 'like=', 'like()')
+
+
+def judge_fxp_array(acc, fmt, rounding, overflow, ds, k, route, part):
+    """the values arrive as ONE fixed-point array object with k more fraction bits than the destination (holds every quarter-LSB input,
+    exact ties included) and are stored by `route`"""
+    sf = Fmt(True, 62 - max(0, fmt.n_frac + k), fmt.n_frac + k)
+    ds = [d for d in ds if 0 <= d[1] <= sf.n_frac and abs(d[0] << (sf.n_frac - d[1])) < (1 << 50)] if sf.n_frac >= 0 else []
+    if not ds:
+        return
+    case = {'part': part, 'fmt': list(fmt), 'mode': [rounding, overflow], 'vals': [list(d) for d in ds], 'carrier': 'fxp+%d' % k, 'route': route, 'fxp_array': k}
+    exp = [quantize(d, fmt, rounding, overflow) for d in ds]
+    acc.evaluations += len(ds)
+    acc.transitions += 1
+    acc.nontrivial += sum(1 for e in exp if e[1] or e[2] or e[3])
+    acc.dim('carrier', 'fxp+%d' % k, len(ds))
+    acc.dim('route', route, len(ds))
+    if rounding == 'around':
+        acc.outcome('tie', sum(1 for d in ds if _is_tie(d, fmt)))
+    try:
+        src = Fxp(np.array([d[0] << (sf.n_frac - d[1]) for d in ds], dtype=np.int64), sf.signed, sf.n_word, sf.n_frac, raw=True)
+        t = mk(np.zeros(len(ds)), fmt, rounding, overflow)
+        if route == 'ctor':
+            x = Fxp(src, fmt.signed, fmt.n_word, fmt.n_frac, rounding=rounding, overflow=overflow)
+        elif route == 'call':
+            x = t
+            x(src)
+        elif route == 'set_val':
+            x = t
+            x.set_val(src)
+        elif route == 'equal':
+            x = t.equal(src)
+        elif route == 'setitem':
+            x = t
+            x[:] = src
+        elif route == 'like=':
+            x = Fxp(src, like=t)
+        else:
+            x = src.like(t)
+        got, fl = codes(x), flags(x)
+    except Exception as e:
+        acc.violation('exception', case, '%s -> %s %s/%s by %s raised %r' % (sf.dtype, fmt.dtype, rounding, overflow, route, e), {'part': part, 'carrier': 'fxp', 'route': route})
+        return
+    expc = [e[0] for e in exp]
+    if got != expc:
+        i = [j for j in range(len(ds)) if got[j] != expc[j]][0]
+        acc.violation('code', dict(case, vals=[list(ds[i])]), 'fmt=%s mode=%s/%s v=%s/2^%d carrier=Fxp array %s route=%s: stored code %s, expected %d'
+                      % (fmt.dtype, rounding, overflow, ds[i][0], ds[i][1], sf.dtype, route, got[i], expc[i]),
+                      {'part': part, 'carrier': 'fxp', 'route': route, 'rounding': rounding}, full=case)
+    elif fl != (any(e[1] for e in exp), any(e[2] for e in exp), any(e[3] for e in exp)):
+        acc.violation('flags', case, 'fmt=%s mode=%s/%s Fxp array source %s route=%s: flags %s' % (fmt.dtype, rounding, overflow, sf.dtype, route, fl),
+                      {'part': part, 'carrier': 'fxp', 'route': route})
+    acc.sample(dict(case, vals=case['vals'][:3]))
+
+
 def judge_layout(acc, fmt, rounding, overflow, ds, part):
     """the same values as a 2-d float64 input in C, Fortran, transposed and strided layouts, by constructor and set_val:
     element (i, j) of the object must be the quantization of element (i, j) of the input"""
@@ -225,7 +280,7 @@ def judge_scalar(acc, fmt, rounding, overflow, d, carrier, route, part):
         acc.violation('code', case, 'fmt=%s mode=%s/%s v=%s/2^%d carrier=%s route=%s: stored %s (values %s), expected code %d'
                       % (fmt.dtype, rounding, overflow, d[0], d[1], carrier, route, cs[:4], gv[:4], ec),
                       {'part': part, 'carrier': carrier, 'route': route, 'rounding': rounding, 'overflow': overflow})
-    elif fl != (eo, eu, ei):
+    elif fl != ((eo, eu, ei) if not route.endswith('@huge') else (True, True, True)):          # flags raised by the history are sticky
         acc.violation('flags', case, 'fmt=%s mode=%s/%s v=%s/2^%d carrier=%s route=%s: flags %s expected %s'
                       % (fmt.dtype, rounding, overflow, d[0], d[1], carrier, route, fl, (eo, eu, ei)),
                       {'part': part, 'carrier': carrier, 'route': route})
@@ -258,7 +313,7 @@ def dev_combos(dev):
     for m in MODES:
         for c in cs:
             for r in ROUTES + HROUTES:
-                n = (m != DEFAULT_MODE) + (c != 'float') + (r != 'ctor') + (r in HROUTES)      # a destination with a history counts twice
+                n = (m != DEFAULT_MODE) + (c != 'float') + (r != 'ctor') + (r in HROUTES and not r.endswith('@huge'))      # a destination with a history counts twice (except the cheap 'huge' one)
                 if n <= dev:
                     out.append((m, c, r))
     return out
@@ -275,6 +330,9 @@ def run_shard(sh):
             ds = [qval(k, fmt) for k in al.quarter_sweep(fmt, 1)]
             for (r, o) in MODES:
                 judge_array(acc, fmt, r, o, ds, 'A')
+                if nw <= 4 and nf + 12 <= 40:
+                    for k, route in ((2, 'ctor'), (2, 'equal'), (5, 'call'), (5, 'like()'), (12, 'set_val'), (12, 'setitem'), (3, 'like=')):
+                        judge_fxp_array(acc, fmt, r, o, ds, k, route, 'A')
             if nf in (-1, 0, nw // 2, nw + 1):
                 judge_layout(acc, fmt, 'around', 'wrap', ds, 'A')
                 judge_layout(acc, fmt, 'floor', 'saturate', ds, 'A')
@@ -413,6 +471,9 @@ def run_complex(acc, sh):
 def replay(case):
     reset_class_state()
     acc = Acc()
+    if case.get('fxp_array'):
+        judge_fxp_array(acc, Fmt(*case['fmt']), case['mode'][0], case['mode'][1], [tuple(d) for d in case['vals']], case['fxp_array'], case['route'], case['part'])
+        return acc.violations
     fmt = Fmt(*case['fmt'])
     r, o = case['mode']
     ds = [tuple(d) for d in case.get('vals', [])]
